@@ -10,9 +10,14 @@ go build -o "$ROOT/.bin/driver" ./cmd/driver || exit 1
 TMP="$(mktemp -d)"
 trap 'rm -rf "$TMP"' EXIT
 rc=0
-for d in c[0-9][0-9]; do
+# only the packages of properties claimed in MANIFEST.json (others may be under construction)
+for id in $(jq -r '.checks[].property_id' "$ROOT/MANIFEST.json"); do
+  d="c${id#C}"
   [ -d "$d" ] || continue
-  go test -c -tags verif -vet=off -o "$TMP/$d.test" "./$d" || rc=1
+  if [ "$(jq -r '.race // false' "$d/prop.json")" = "true" ]; then
+    go test -c -race -tags verif -vet=off -o "$TMP/$d.test" "./$d" || rc=1
+  else
+    go test -c -tags verif -vet=off -o "$TMP/$d.test" "./$d" || rc=1
+  fi
 done
-if [ -d c09 ]; then go test -c -race -tags verif -vet=off -o "$TMP/c09r.test" ./c09 || rc=1; fi
 exit $rc
